@@ -36,9 +36,11 @@ def openReply (bs : Bytes) : String :=
     let four := showO (fun b => if b then "1" else "0") (fourOctetCapable m)
     let mp := showO (fun l => joinWith "," (l.map fun (a, s) => s!"{a}/{s}")) (multiprotocolIds m)
     let ap := showO (fun l => joinWith "," (l.map fun (a, s, d) => s!"{a}/{s}/{d}")) (addpathFamiliesVec m)
-    let sw := showO (fun o => match o with
+    -- get_software_version: only presence (and that it does not panic) – the property does not
+    -- list this accessor's value
+    let sw := showO (fun (o : Option Bytes) => match o with
         | none => "none"
-        | some v => if isAscii v then hexOrDash v else "na") (softwareVersion m)
+        | some _ => "some") (softwareVersion m)
     s!"ok len={len} ver={ver} asn={asn} ht={ht} id={id} opl={opl} params={params} caps={caps} four={four} mp={mp} ap={ap} sw={sw}"
 
 def notifReply (bs : Bytes) : String :=
